@@ -1,12 +1,20 @@
 ENGINES = [
     {'name': 'X', 'path': 'lib/xworker.py', 'kind_free_text': 'CrossHair 0.0.110 symbolic execution of the real Python functions (z3 decides every branch), one OS process per condition, vacuity twin per condition, plain-CPython replay of every counterexample',
-     'serves_properties': ['C02', 'C06', 'C09', 'C10', 'C11', 'C13', 'C15', 'C16', 'C17', 'C18', 'C19']},
+     'serves_properties': ['C02', 'C06', 'C08', 'C09', 'C10', 'C11', 'C13', 'C15', 'C16', 'C17', 'C18', 'C19']},
     {'name': 'Z', 'path': 'lib/zworker.py', 'kind_free_text': 'z3 sequence-theory queries over SHA-1 pre-image terms recorded by executing the real digest code on symbolic strings (lib/zsym.py); sat models replayed on the real functions with the real hashlib',
      'serves_properties': ['C02', 'C03', 'C07']},
 ]
 NOTES = ('Technique family: solver-based checking of the real code. Every result is bounded; bounds, stubs and '
          'assumptions are in evidence/<id>.json and DESIGN.md. Exit 2 of ./check = harness error (never a verdict).')
 CLAIMS = {
+    'C08': dict(
+        engine='X',
+        technique='CrossHair+z3 enumeration of hostile member lists through the real TarHelper/_tarExtractFilter and the stdlib tarfile extraction code (private module copy) on a stub file system; counterexamples replayed in a real temporary directory',
+        text='Confinement part: for every archive of 2 (quick) / 3 (thorough) members drawn from 16 hostile/benign names x 6 member types x symlink / hard link targets, with right or wrong pax version: after extraction or rejection '
+             'no path outside the workspace content directory and the audit file was created, removed or modified (including through hard links), a wrong-format artifact is not extracted, and the audit file next to the '
+             'workspace stems from this artifact or does not exist. The lossless pack/extract round trip and rejection of truncated / bit-flipped byte streams are NOT covered (gzip/tar byte level).',
+        design_ref='DESIGN.md section 4, C08',
+        note='Trusted: SymFS path resolution model (component-wise, symlinks before ..); every counterexample is additionally replayed with the real file system. Outside: byte-level corruption, pack fidelity, post-download hash gate in the builder.'),
     'C18': dict(
         engine='X',
         technique='CrossHair+z3 enumeration of every package DAG in the bound (edge kinds symbolic) through the real path query evaluator (real grammar, real sqlite graph) against an independent forward reference semantics',
